@@ -235,7 +235,7 @@ class CallsMixin:
         if isinstance(v, V) and isinstance(v.kind, K.Map):
             return self.mapview_seq(v, 'keys')
         if isinstance(v.kind, K.Seq):
-            return v
+            return V(v.kind, v.terms)       # list(x) is a new list
         if isinstance(v.kind, K.Tuple) and v.kind.items:
             return K.coerce(v, K.Seq(v.kind.items[0]))
         raise Unsupported('list(%r)' % (v.kind,))
@@ -831,13 +831,13 @@ class CallsMixin:
         base, name, target = fn.self_, fn.name, fn.target
         if isinstance(base, PyObj):
             if base.tag == 'emptylist' and name == 'append':
-                self.assign_to(target, K.seq_append(K.empty_seq(args[0].kind), args[0]), node)
+                self.assign_to(target, K.seq_append(K.empty_seq(args[0].kind), args[0]), node, inplace=True)
                 return K.NONE
             if base.tag == 'emptylist' and name == 'extend':
-                self.assign_to(target, args[0], node)
+                self.assign_to(target, args[0], node, inplace=True)
                 return K.NONE
             if base.tag == 'emptyset' and name == 'add':
-                self.assign_to(target, K.set_add(K.empty_set(args[0].kind), args[0]), node)
+                self.assign_to(target, K.set_add(K.empty_set(args[0].kind), args[0]), node, inplace=True)
                 return K.NONE
             if base.tag == 'emptydict' and name == 'get':
                 return args[1] if len(args) > 1 else K.NONE
@@ -910,7 +910,7 @@ class CallsMixin:
             elif name in ('items', 'keys', 'values'):
                 return PyObj('mapview', map=base, what=name)
             elif name == 'copy':
-                return base
+                return V(base.kind, base.terms)     # a new dict: no longer the owner's own container
             elif name == 'update' and len(args) == 1 and isinstance(args[0], V) and isinstance(args[0].kind, K.Map):
                 other = K.V(k, args[0].terms) if args[0].kind == k else None
                 if other is None:
@@ -943,7 +943,7 @@ class CallsMixin:
                 else:
                     self.implicit_raise(present, 'KeyError', 'dict.pop', node)
                     res = got
-                self.assign_to(target, V(k, terms), node)
+                self.assign_to(target, V(k, terms), node, inplace=True)
                 return res
             if name == 'get':
                 s = simp(args[0].t)
@@ -991,7 +991,7 @@ class CallsMixin:
         if upd is not None:
             if target is None:
                 raise Unsupported('mutation without assignable target')
-            self.assign_to(target, upd, node)
+            self.assign_to(target, upd, node, inplace=True)
         return res
 
     def str_split(self, base, args, node, right):
@@ -1138,6 +1138,12 @@ class CallsMixin:
             raise Unsupported('call of non-pure %s in a specification' % c.name)
         self.p.called.add(c.name)
         bound = self.bind_args(c, args, kwargs, node)
+        for pn in getattr(c, 'stores', ()):
+            org = getattr(bound.get(pn), 'origin', None)
+            if org is not None and not self.spec:
+                self.check(z3.BoolVal(False), 'no-shared-container[%s.%s <- %s]' % (c.name, pn, org[0]),
+                           'a list/dict/set read from %s is handed to %s, which keeps it, without being copied: later '
+                           'in-place changes through one object would silently change the other' % (org[0], c.name), node)
         if c.inline:
             return self.call_inline(c, bound, node)
         sub = self.sub_interp(bound)
